@@ -221,6 +221,7 @@ func runMutants(c *Ctx, w *World) {
 		if (m.Expect == "detect") != fired {
 			mismatches++
 			outcome += " (UNEXPECTED)"
+			fmt.Printf("sensitivity: UNEXPECTED outcome for mutant %q (expected %s): %v\n", m.Note, m.Expect, rules)
 		}
 		if len(rules) > 4 {
 			rules = rules[:4]
